@@ -228,6 +228,13 @@ func checkC17(c *Check) {
 					body, okBody = ci, true
 				}
 			}
+			// io.WriteString(w, s): the writer's WriteString if it has one, else Write([]byte(s)) — the same bytes
+			for _, ci := range callsNamed(m, "io.WriteString") {
+				a := ci.Common().Args
+				if w(a[0]) && vParam(m, 2)(a[1]) {
+					body, okBody = ci, true
+				}
+			}
 		}
 		c.Cond(okBody, key+":body", p.FuncPos(m), "body is the method's own value parameter written/encoded to the render's writer", "the body is not produced from the caller's value on the render's own writer")
 		// order
